@@ -245,7 +245,8 @@ Inductive op :=
 | OSetLast (id : N) (t : N)
 | OSetMode (id : N) (m : mode)
 | ORemovePase (keep : option N)                   (* Sessions::remove_pase *)
-| OExAdd (id : N) (pending : bool) (now : N)      (* new exchange (post_recv / initiate_for_session) *)
+| OExAdd (id : N) (pending : bool) (now : N)      (* new exchange: post_recv (pending; never matches a reserved
+                                                     slot) / initiate_for_session (owned) *)
 | OExAccept (id : N) (xi : nat) (now : N)         (* accept_if: AcceptPending -> Owned *)
 | OExTimeout (id : N) (xi : nat) (now : N)        (* accept time-out: AcceptPending -> Dropped *)
 | OExDrop (id : N) (xi : nat) (retr ack : bool) (now : N)   (* Drop for Exchange *)
@@ -338,7 +339,7 @@ Definition step (cap mx : nat) (s : st) (o : op) : st * out :=
       match t_lookup id (tb s) with
       | None => (s, RErr E_NOSESSION)
       | Some x =>
-          if s_reserved x || s_expired x then (s, RErr E_NOSESSION)
+          if (pending && s_reserved x) || s_expired x then (s, RErr E_NOSESSION)
           else match t_get id now (tb s) with
                | None => (s, RErr E_NOSESSION)
                | Some t1 =>
